@@ -212,6 +212,7 @@ func (m *Monitors) relational(o *Op, res string, pre *Pre, s *Snap, bal map[int6
 
 	m.noteK3(s)
 	m.c13WdFrame(o, res, pre, s)
+	m.c03Step(o, res, pre, s, bal, dep)
 
 	// register newly issued requests before the checks use them
 	m.c02Issue(f, pre, s)
@@ -1580,5 +1581,67 @@ func (m *Monitors) c13WdFrame(o *Op, res string, pre *Pre, s *Snap) {
 		if _, ok := pre.snap.Wd[owner]; !ok {
 			check(owner, "", nw, false, true)
 		}
+	}
+}
+
+
+// c03Step: deposits enter custody only from the owner who signs, by exactly the amount named, and
+// leave it (other than by a slash) only as the refund of the ENTIRE deposit to the binding's owner;
+// a bind never lands on an existing binding (C15: a binding exists at most once per service and provider).
+func (m *Monitors) c03Step(o *Op, res string, pre *Pre, s *Snap, bal map[int64]*big.Int, dep *big.Int) {
+	if res != "ok" {
+		return
+	}
+	a := m.r.a
+	k := bindKey{a.svcName[o.Svc], string(a.addr(o.Prov))}
+	delta := func(at int64) *big.Int { return new(big.Int).Sub(bal[at], pre.bal[at]) }
+	depDelta := new(big.Int).Sub(dep, pre.dep)
+	others := func(except int64) {
+		for at := range bal {
+			if at != except && delta(at).Sign() != 0 {
+				m.fail("C03", "%s by %d changed the balance of account %d by %s", o.Kind, o.Owner, at, delta(at))
+			}
+		}
+	}
+	switch o.Kind {
+	case "refunddep":
+		m.evals["C03.step"]++
+		pb, ok := pre.snap.Binds[k]
+		if !ok {
+			m.fail("C03", "refund of a binding that did not exist")
+			return
+		}
+		d := amountOf(pb.Deposit)
+		owner := a.atomOfAddr(pb.Owner)
+		if delta(owner).Cmp(d) != 0 || new(big.Int).Neg(depDelta).Cmp(d) != 0 {
+			m.fail("C03", "refund of deposit %s: owner %d received %s, the deposit account paid %s", d, owner, delta(owner), new(big.Int).Neg(depDelta))
+		}
+		if nb, ok := s.Binds[k]; !ok || amountOf(nb.Deposit).Sign() != 0 {
+			m.fail("C03", "refund did not leave the binding with an empty deposit")
+		}
+		others(owner)
+	case "bind", "update", "enable":
+		m.evals["C03.step"]++
+		amt := big.NewInt(0)
+		if o.Dep.Kind == "B" {
+			amt = big.NewInt(o.Dep.Amt)
+		}
+		before := big.NewInt(0)
+		pb, existed := pre.snap.Binds[k]
+		if existed {
+			before = amountOf(pb.Deposit)
+		}
+		if o.Kind == "bind" && existed {
+			m.evals["C15"]++
+			m.fail("C15", "bind accepted for an existing binding (service %d, provider %d): a binding exists at most once", o.Svc, o.Prov)
+		}
+		nb := s.Binds[k]
+		if new(big.Int).Sub(amountOf(nb.Deposit), before).Cmp(amt) != 0 {
+			m.fail("C03", "%s with deposit %s moved the recorded deposit from %s to %s", o.Kind, amt, before, amountOf(nb.Deposit))
+		}
+		if new(big.Int).Neg(delta(o.Owner)).Cmp(amt) != 0 || depDelta.Cmp(amt) != 0 {
+			m.fail("C03", "%s with deposit %s: signer %d paid %s, the deposit account received %s", o.Kind, amt, o.Owner, new(big.Int).Neg(delta(o.Owner)), depDelta)
+		}
+		others(o.Owner)
 	}
 }
